@@ -33,9 +33,11 @@ def regexCovers (j : Json) (p t : Text) : Bool :=
     | _ => false)))
 
 def asyncOf (j : Json) : AsyncOracle := fun v file b =>
+  -- outcome oracle entries are keyed by validator, file and the attribute's value (script path / condition)
+  let arg := (Tag.attrGet b.attrs v.toList).getD []
   match (arr j "async").find? (fun e =>
-      (e.getObjValAs? String "v").toOption = some v && strD e "file" = file &&
-      natK e "line" = b.tagStart.line && natK e "col" = b.tagStart.col) with
+      (e.getObjValAs? String "v").toOption = some v &&
+      (match str? e "file" with | some f => f = file | none => true) && strD e "arg" = arg) with
   | none => .error .oracleMiss
   | some e =>
     match e.getObjVal? "out" with
